@@ -5,8 +5,10 @@ go 1.23.0
 toolchain go1.23.5
 
 require (
+	github.com/IBM/sarama v1.43.3
 	github.com/pion/dtls/v2 v2.2.12
 	github.com/vmware/go-ipfix v0.0.0
+	google.golang.org/protobuf v1.34.2
 	k8s.io/klog/v2 v2.130.1
 )
 
